@@ -47,10 +47,15 @@ pub fn seeds() -> Vec<String> {
         "<table><tbody></tbody><caption>qa</caption></table>",
         "<table><caption>qa</caption><caption>qb</caption><tr><td>qc</td></tr></table>",
         "<table><tr><td>qa</td></tr><caption>qb</caption></table>",
+        "<table><tbody><tr><td>qa</td></tr></tbody><caption>qb</caption><tbody><tr><td>qc</td></tr></tbody></table>",
         "<ul></ul>qa<ol></ol>qb<dl></dl>qc",
         "<ul><li></li></ul>qa<dl><dt></dt><dd></dd></dl>qb",
         "<p>x<sup>\u{b2}</sup> y<sup>\u{ff11}\u{ff12}</sup> z<sup>1\u{bd}</sup></p>",
         "<p>caf<em>e</em>\u{301} a<strong>\u{301}</strong>b</p>",
+        // struck text with white space that is not ASCII (no-break, ideographic, em space), at the end of the element
+        "<p><s>abc\u{a0}</s></p><p>next</p>",
+        "<p><s>a\u{3000}</s> b <del>x\u{2003}y\u{a0}</del></p>",
+        "<ul><li><s>qa\u{a0}</s><br>qb</li></ul>",
         "<p><del>a中b</del> <s>c</s></p>",
         "<p><img src=/s alt=\"al t\"><img alt=noalt><img src=/s></p>",
         "<dl><dt>t<dd>d<dd><p>e</dl>",
